@@ -34,6 +34,7 @@ def main(argv=None) -> int:
         if a.replay:
             with open(a.replay) as f:
                 rep = json.load(f)
+            rep["_path"] = a.replay
             return int(mod.replay(rep))
         run = Run(pid, a.tier, a.seed)
         mod.check(run)
